@@ -383,6 +383,7 @@ pub fn run_property(prop: &Prop, opt: &Options) -> i32 {
     let mut suites: BTreeMap<String, u64> = BTreeMap::new();
     let mut samples: Vec<Value> = Vec::new();
     let mut digest_all = crate::prng::Digest::default();
+    let mut distinct_logs: BTreeSet<u64> = BTreeSet::new();
     let mut harness_errors: Vec<String> = Vec::new();
     let mut violations: Vec<(Scenario, Violation, u64)> = Vec::new();
     let mut trace_lines: Vec<(u64, String)> = Vec::new();
@@ -410,6 +411,7 @@ pub fn run_property(prop: &Prop, opt: &Options) -> i32 {
         }
         *suites.entry(pr.suite.clone()).or_default() += 1;
         digest_all.add(&r.digest.to_le_bytes());
+        distinct_logs.insert(r.digest);
         if let Some(s) = &r.sample {
             if samples.len() < 4 || (samples.len() < 8 && i % 97 == 0) {
                 samples.push(s.clone());
@@ -536,6 +538,7 @@ pub fn run_property(prop: &Prop, opt: &Options) -> i32 {
                 "components": {"real": prop.real, "stub": prop.stub, "independent": prop.independent},
                 "reference": ref_summary,
                 "batch_digest": digest_all.hex(),
+                "distinct_event_logs": distinct_logs.len(),
                 "violations_found": viol_samples,
                 "known_findings_hit": known_hits.iter().cloned().collect::<Vec<_>>(),
                 "harness_errors": harness_errors,
